@@ -1221,21 +1221,48 @@ fn extract(src: &Src, b: &Block, report: &mut Vec<serde_json::Value>, vacuity: b
                         let k: usize = k.trim().parse().map_err(|_| "bad loop ordinal")?;
                         let at = *col.loops.get(k).ok_or_else(|| format!("LOST-ANCHOR: loop {k} not found in {}", b.path))?;
                         col.push(at, at, txt, "H");
-                    } else if let Some(a) = place.strip_prefix("before ").or_else(|| place.strip_prefix("after ")) {
-                        let before = place.starts_with("before ");
+                    } else if place.starts_with("before") || place.starts_with("after") {
+                        // `before <anchor>` / `after <anchor>`; `before#k <anchor>` picks the k-th (1-based) matching statement in source order
+                        let before = place.starts_with("before");
+                        let rest = if before { &place[6..] } else { &place[5..] };
+                        let (ord, a) = if let Some(r2) = rest.strip_prefix('#') {
+                            let sp = r2.find(' ').ok_or("bad hint ordinal")?;
+                            (Some(r2[..sp].parse::<usize>().map_err(|_| "bad hint ordinal")?), r2[sp..].trim())
+                        } else {
+                            (None, rest.trim())
+                        };
                         let an = norm(a);
-                        let hits: Vec<&(usize, usize, String)> =
+                        let mut hits: Vec<&(usize, usize, String)> =
                             body_norm_cache.iter().filter(|(_, _, t)| t.starts_with(&an)).collect();
-                        // a statement and its enclosing statement may both start with the anchor; take the innermost (shortest)
                         if hits.is_empty() {
                             return Err(format!("LOST-ANCHOR: `{a}` in {}", b.path));
                         }
-                        let best = hits.iter().min_by_key(|h| h.1 - h.0).unwrap();
-                        let same_len = hits.iter().filter(|h| h.1 - h.0 == best.1 - best.0).count();
-                        let distinct_starts: HashSet<usize> = hits.iter().map(|h| h.0).collect();
-                        if same_len > 1 || distinct_starts.len() > 1 {
-                            return Err(format!("AMBIGUOUS-ANCHOR: `{a}` in {}", b.path));
-                        }
+                        let best: &(usize, usize, String) = match ord {
+                            Some(k) => {
+                                // distinct start offsets in source order; for equal starts keep the innermost
+                                hits.sort_by_key(|h| (h.0, h.1 - h.0));
+                                let mut starts: Vec<&(usize, usize, String)> = Vec::new();
+                                for h in hits.iter() {
+                                    if starts.last().map(|l| l.0 != h.0).unwrap_or(true) {
+                                        starts.push(h);
+                                    }
+                                }
+                                // drop statements that enclose another match (outer blocks starting with the same text are not meant)
+                                if k == 0 || k > starts.len() {
+                                    return Err(format!("LOST-ANCHOR: `{a}` #{k} in {} ({} matches)", b.path, starts.len()));
+                                }
+                                starts[k - 1]
+                            }
+                            None => {
+                                let best = *hits.iter().min_by_key(|h| h.1 - h.0).unwrap();
+                                let same_len = hits.iter().filter(|h| h.1 - h.0 == best.1 - best.0).count();
+                                let distinct_starts: HashSet<usize> = hits.iter().map(|h| h.0).collect();
+                                if same_len > 1 || distinct_starts.len() > 1 {
+                                    return Err(format!("AMBIGUOUS-ANCHOR: `{a}` in {}", b.path));
+                                }
+                                best
+                            }
+                        };
                         let at = if before { best.0 } else { best.1 };
                         let t = if before { format!("{}\t\t", &txt[1..]) } else { txt };
                         col.push(at, at, t, "H");
